@@ -642,10 +642,12 @@ class Interp:
         base = self.eval(fr, node.value)
         sl = node.slice
         if isinstance(sl, ast.Slice):
-            for p in (sl.lower, sl.upper, sl.step):
-                if p is not None:
-                    self.eval(fr, p)
-            return self.shallow_copy(fr, node, base, sliced=True)
+            bounds = [self.eval(fr, p) for p in (sl.lower, sl.upper, sl.step) if p is not None]
+            res = self.shallow_copy(fr, node, base, sliced=True)
+            for n in res:
+                if n[0] == "obj":  # the slice's extent depends on its bounds
+                    self.der(("setop", n), *bounds)
+            return res
         kv = self.eval(fr, sl)
         key = _single_const(kv)
         if isinstance(sl, ast.Tuple):
